@@ -151,6 +151,40 @@ def build_harness(features):
     return r
 
 
+def run_driver(ops, outp, jobs=None):
+    """run the Lean driver over the op lines, in parallel slices (the driver is a pure line filter)"""
+    jobs = jobs or max(1, min(12, (os.cpu_count() or 2) - 2))
+    with open(ops) as f:
+        lines = f.readlines()
+    if len(lines) < 200:
+        jobs = 1
+    # interleave so that expensive cases spread over the slices
+    slices = [lines[i::jobs] for i in range(jobs)]
+    procs = []
+    for i, sl in enumerate(slices):
+        pi = "%s.in%d" % (outp, i)
+        po = "%s.out%d" % (outp, i)
+        with open(pi, "w") as f:
+            f.writelines(sl)
+        procs.append((subprocess.Popen([DRIVER], stdin=open(pi), stdout=open(po, "w"), stderr=subprocess.PIPE, env=ENV), pi, po))
+    outs = []
+    for p, pi, po in procs:
+        _, err = p.communicate(timeout=7200)
+        if p.returncode != 0:
+            raise RuntimeError("driver failed: %s" % err.decode()[-2000:])
+        with open(po) as f:
+            outs.append(f.readlines())
+        os.remove(pi)
+        os.remove(po)
+    merged = [None] * len(lines)
+    for i, o in enumerate(outs):
+        if len(o) != len(slices[i]):
+            raise RuntimeError("driver produced %d lines for %d operations" % (len(o), len(slices[i])))
+        merged[i::jobs] = o
+    with open(outp, "w") as f:
+        f.writelines(merged)
+
+
 def run_family(prop, fam, tier, seed, rundir, extra, tag, replay=None, n=None):
     ops = os.path.join(rundir, "ops_%s.txt" % tag)
     outp = os.path.join(rundir, "out_%s.txt" % tag)
@@ -167,10 +201,7 @@ def run_family(prop, fam, tier, seed, rundir, extra, tag, replay=None, n=None):
         r = subprocess.run(cmd, stdout=f, stderr=subprocess.PIPE, env=ENV, timeout=7200)
     if r.returncode != 0:
         raise RuntimeError("harness failed: %s\n%s" % (" ".join(cmd), r.stderr.decode()[-2000:]))
-    with open(ops) as fi, open(outp, "w") as fo:
-        r = subprocess.run([DRIVER], stdin=fi, stdout=fo, stderr=subprocess.PIPE, env=ENV, timeout=7200)
-    if r.returncode != 0:
-        raise RuntimeError("driver failed: %s" % r.stderr.decode()[-2000:])
+    run_driver(ops, outp)
     cases = []
     with open(ops) as fi, open(outp) as fo:
         for l, o in zip(fi, fo):
